@@ -546,6 +546,7 @@ func C11(o *core.Options) int {
 	<-done
 	r.States, r.Transitions, r.Traces = int64(len(states)), transitions, transitions
 	if o.Replay == "" {
+		c11Seam(r)
 		// clock advances, TTL expiry, the iterator-TTL window, the invalidation interval and runs that overlap
 		// with requests and writes are decided at component level on a harness clock
 		c11ClockControlled(o, r)
